@@ -634,7 +634,7 @@ func init() {
 		Shards: shards(12, 16),
 		Meta: func(tier string) rt.Meta {
 			return rt.Meta{Level: "exploration", MinEvals: 5000, MinDistinct: 100,
-				Rule:        "sequential histories of 200-300 calls from the C01 templates with aliasing bias and INVALID operands left in (root, '.', '..', empty path, source an ancestor/descendant of the destination, identical operands, multiply-linked destinations, missing parents, wrong types, unclean spellings, open handles), on MemFS and OrefaFS, Linux- and Windows-typed (-tags avfs_setostype); in half of the Linux-typed MemFS histories a third of the calls are issued by a non-administrator (SetUser) so that calls fail half-way on permissions, the monitors looking at the tree as the administrator; one MemFS call in five is issued through a fresh Sub view of the root. After EVERY call: (1) public-API checker - bounded walk terminates, listing sorted and duplicate-free, listed <=> Lstat succeeds, Nlink of every regular file == number of SameFile paths, all those paths agree on content/size/mode/owner; (2) internal checker through the verif hook (MemFS: one parent edge per directory, no cycle, stored link counter == number of entries, no entry to a deleted node; OrefaFS: path index == reachable paths, no orphan); (3) frame monitor - a failed call (RemoveAll and composites excepted) leaves the snapshot unchanged, a successful call changes only paths in a footprint computed in the pre-state (named paths, what they resolve to through links, descendants, other hard links of named files, new temp names). Plus partial-failure scenarios: a tree built by a non-administrator with hard links leading out of it, non-empty directories then protected by the administrator, then RemoveAll/MkdirAll/Rename/Remove by the owner - the calls may fail half-way, monitors (1) and (2) after each. Plus histories over three volumes of a Windows-typed MemFS (VolumeAdd/VolumeDelete, links and renames across volumes; link count == SameFile paths over all volumes; internal checker). Plus trees whose paths repeat themselves (/a/x/a/y, /w/a/k/w/a/y) under renames and removals. Signature = fs/os | call kind | outcome; non-trivial = not the first call.",
+				Rule:        "sequential histories of 200-300 calls from the C01 templates with aliasing bias and INVALID operands left in (root, '.', '..', empty path, source an ancestor/descendant of the destination, identical operands, multiply-linked destinations, missing parents, wrong types, unclean spellings, open handles), on MemFS and OrefaFS, Linux- and Windows-typed (-tags avfs_setostype); in half of the Linux-typed MemFS histories a third of the calls are issued by a non-administrator (SetUser) so that calls fail half-way on permissions, the monitors looking at the tree as the administrator; one MemFS call in five is issued through a fresh Sub view of the root. After EVERY call: (1) public-API checker - bounded walk terminates, listing sorted and duplicate-free, listed <=> Lstat succeeds, Nlink of every regular file == number of SameFile paths, all those paths agree on content/size/mode/owner; (2) internal checker through the verif hook (MemFS: one parent edge per directory, no cycle, stored link counter == number of entries, no entry to a deleted node; OrefaFS: path index == reachable paths, no orphan); (3) frame monitor - a failed call (RemoveAll and composites excepted) leaves the snapshot unchanged, a successful call changes only paths in a footprint computed in the pre-state (named paths, what they resolve to through links, descendants, other hard links of named files, new temp names). Plus partial-failure scenarios: a tree built by a non-administrator with hard links leading out of it, non-empty directories then protected by the administrator, then RemoveAll/MkdirAll/Rename/Remove by the owner - the calls may fail half-way, monitors (1) and (2) after each. Plus histories over three volumes of a Windows-typed MemFS (VolumeAdd/VolumeDelete, links and renames across volumes; link count == SameFile paths over all volumes; internal checker). Plus trees whose paths repeat themselves (/a/x/a/y, /w/a/k/w/a/y) under renames and removals. VolumeAdd names the volume by its bare name or by a path on it. Signature = fs/os | call kind | outcome; non-trivial = not the first call.",
 				Assumptions: []string{"directory link counts are not checked (the statement speaks of regular files)", "composite helpers (WriteFile, MkdirAll, OpenFile+Write+Close, temp creation) may legitimately leave a partial effect when they fail"}}
 		},
 		Run: func(c *rt.Ctx) {
